@@ -2,6 +2,7 @@
 # Lab tool: re-apply every stored seeded change to /repo in turn, run the first check listed in its caught_by
 # (quick tier) and record whether it still reports a violation. Writes out/seed_regress.tsv. /repo is restored after each.
 cd "$(dirname "$0")/.."
+REPO=${VERIF_REPO:-/repo}
 mkdir -p out
 : > out/seed_regress.tsv
 for d in seeded/*/; do
@@ -9,12 +10,12 @@ for d in seeded/*/; do
   [ -n "$1" ] && case "$id" in $1) ;; *) continue ;; esac
   p=$(jq -r '.caught_by[0] // empty' "$d/meta.json" | cut -d' ' -f1)
   [ -z "$p" ] && { printf '%s\t-\tno-catcher\n' "$id" >> out/seed_regress.tsv; continue; }
-  if ! git -C /repo apply --check "$PWD/$d/patch.diff" 2>/dev/null; then printf '%s\t%s\tpatch-does-not-apply\n' "$id" "$p" >> out/seed_regress.tsv; continue; fi
-  git -C /repo apply "$PWD/$d/patch.diff"
+  if ! git -C "$REPO" apply --check "$PWD/$d/patch.diff" 2>/dev/null; then printf '%s\t%s\tpatch-does-not-apply\n' "$id" "$p" >> out/seed_regress.tsv; continue; fi
+  git -C "$REPO" apply "$PWD/$d/patch.diff"
   bin/check "$p" quick > "out/seed_regress-$id.log" 2>&1; rc=$?
-  git -C /repo checkout -- .
+  git -C "$REPO" checkout -- .
   n=$(grep -c '^VIOLATION' "out/seed_regress-$id.log")
   printf '%s\t%s\texit=%s violations=%s\n' "$id" "$p" "$rc" "$n" >> out/seed_regress.tsv
 done
-git -C /repo status --short | head -3
+git -C "$REPO" status --short | head -3
 awk -F'\t' '{print $3}' out/seed_regress.tsv | sed 's/violations=[0-9]*/violations=N/' | sort | uniq -c
